@@ -18,6 +18,7 @@ EXPLANATION = (
     "every supplied option including None values, and hands the distributor its own options (C03.LAYERWIDTH); the "
     "projection in Force.compute keeps minPos/maxPos (C03.PASSED, in C01.ALLLAYERS).  The numeric 'within 0.5' is "
     "not decided."
+    '  Also part of this check: both walls are anchored on the ends of the sequence the chain orders; bound presence is tested with `is None`; the sort and the documented spacings (C01.SORT, C01.OPTS), solver feasibility (VPSC.FEAS) and stub chains (C04.STUBCHAIN).'
 )
 ASSUMPTIONS = []
 
